@@ -68,6 +68,41 @@ func (f *fakeFD) Number() protoreflect.FieldNumber { return protoreflect.FieldNu
 func (f *fakeFD) FullName() protoreflect.FullName {
 	return protoreflect.FullName(f.parent.full + "." + f.name)
 }
+func (f *fakeFD) Parent() protoreflect.Descriptor                   { return f.parent }
+func (f *fakeFD) ContainingMessage() protoreflect.MessageDescriptor { return f.parent }
+func (f *fakeFD) ContainingOneof() protoreflect.OneofDescriptor     { return nil }
+func (f *fakeFD) IsExtension() bool                                 { return false }
+func (f *fakeFD) IsWeak() bool                                      { return false }
+func (f *fakeFD) IsPacked() bool                                    { return false }
+func (f *fakeFD) IsPlaceholder() bool                               { return false }
+func (f *fakeFD) HasJSONName() bool                                 { return f.json != f.name }
+func (f *fakeFD) HasOptionalKeyword() bool                          { return false }
+func (f *fakeFD) HasPresence() bool                                 { return f.kind == protoreflect.MessageKind && !f.list && !f.isMap }
+func (f *fakeFD) HasDefault() bool                                  { return false }
+func (f *fakeFD) TextName() string                                  { return f.name }
+func (f *fakeFD) Index() int                                        { return f.num - 1 }
+func (f *fakeFD) Syntax() protoreflect.Syntax                       { return protoreflect.Proto3 }
+func (f *fakeFD) Cardinality() protoreflect.Cardinality {
+	if f.list || f.isMap {
+		return protoreflect.Repeated
+	}
+	return protoreflect.Optional
+}
+func (f *fakeFD) Default() protoreflect.Value {
+	switch f.kind {
+	case protoreflect.StringKind:
+		return protoreflect.ValueOfString("")
+	case protoreflect.BytesKind:
+		return protoreflect.ValueOfBytes(nil)
+	case protoreflect.Int32Kind:
+		return protoreflect.ValueOfInt32(0)
+	case protoreflect.EnumKind:
+		return protoreflect.ValueOfEnum(0)
+	case protoreflect.BoolKind:
+		return protoreflect.ValueOfBool(false)
+	}
+	return protoreflect.Value{}
+}
 func (f *fakeFD) Message() protoreflect.MessageDescriptor {
 	if f.msg == nil {
 		return nil
@@ -96,6 +131,17 @@ func (fs *fakeFields) ByName(n protoreflect.Name) protoreflect.FieldDescriptor {
 	}
 	return nil
 }
+func (fs *fakeFields) ByNumber(n protoreflect.FieldNumber) protoreflect.FieldDescriptor {
+	for _, f := range fs.list {
+		if f.num == int(n) {
+			return f
+		}
+	}
+	return nil
+}
+func (fs *fakeFields) ByTextName(n string) protoreflect.FieldDescriptor {
+	return fs.ByName(protoreflect.Name(n))
+}
 func (fs *fakeFields) ByJSONName(n string) protoreflect.FieldDescriptor {
 	for _, f := range fs.list {
 		if f.json == n {
@@ -113,6 +159,9 @@ type fakeMD struct {
 
 func (m *fakeMD) FullName() protoreflect.FullName       { return protoreflect.FullName(m.full) }
 func (m *fakeMD) Fields() protoreflect.FieldDescriptors { return m.fields }
+func (m *fakeMD) IsMapEntry() bool                      { return false }
+func (m *fakeMD) IsPlaceholder() bool                   { return false }
+func (m *fakeMD) Syntax() protoreflect.Syntax           { return protoreflect.Proto3 }
 func (m *fakeMD) Name() protoreflect.Name {
 	s := m.full
 	for i := len(s) - 1; i >= 0; i-- {
@@ -175,6 +224,7 @@ func schemaRoute() *fakeMD {
 	return newFakeMD("vf.Req",
 		strField("f"), strField("g"),
 		&fakeFD{name: "h", kind: protoreflect.MessageKind, msg: sub},
+		&fakeFD{name: "i", kind: protoreflect.Int32Kind},
 	)
 }
 
@@ -237,11 +287,44 @@ func (m *fakeMsg) Has(fd protoreflect.FieldDescriptor) bool {
 	_, c := m.lists[n]
 	return a || b || c
 }
+
+// own panics like dynamicpb / generated messages when fd belongs to another message descriptor.
+func (m *fakeMsg) own(fd protoreflect.FieldDescriptor) {
+	if f, ok := fd.(*fakeFD); !ok || f.parent != m.md {
+		panic(string(fd.FullName()) + ": field descriptor does not belong to this message")
+	}
+}
+
+func (m *fakeMsg) Reset() {
+	m.vals, m.subs, m.lists = map[string]protoreflect.Value{}, map[string]*fakeMsg{}, map[string]*fakeList{}
+	m.raw = nil
+}
+func (m *fakeMsg) Clear(fd protoreflect.FieldDescriptor) {
+	m.own(fd)
+	n := string(fd.Name())
+	delete(m.vals, n)
+	delete(m.subs, n)
+	delete(m.lists, n)
+}
+func (m *fakeMsg) Range(f func(protoreflect.FieldDescriptor, protoreflect.Value) bool) {
+	for _, fd := range m.md.fields.list {
+		if m.Has(fd) && !f(fd, m.Get(fd)) {
+			return
+		}
+	}
+}
+func (m *fakeMsg) GetUnknown() protoreflect.RawFields                                   { return nil }
+func (m *fakeMsg) SetUnknown(protoreflect.RawFields)                                    {}
+func (m *fakeMsg) New() protoreflect.Message                                            { return newFakeMsg(m.md) }
+func (m *fakeMsg) WhichOneof(protoreflect.OneofDescriptor) protoreflect.FieldDescriptor { return nil }
+
 func (m *fakeMsg) Set(fd protoreflect.FieldDescriptor, v protoreflect.Value) {
+	m.own(fd)
 	m.sets++
 	m.vals[string(fd.Name())] = v
 }
 func (m *fakeMsg) Get(fd protoreflect.FieldDescriptor) protoreflect.Value {
+	m.own(fd)
 	n := string(fd.Name())
 	if v, ok := m.vals[n]; ok {
 		return v
@@ -249,19 +332,13 @@ func (m *fakeMsg) Get(fd protoreflect.FieldDescriptor) protoreflect.Value {
 	if s, ok := m.subs[n]; ok {
 		return protoreflect.ValueOfMessage(s)
 	}
-	f := fd.(*fakeFD)
-	switch f.kind {
-	case protoreflect.StringKind:
-		return protoreflect.ValueOfString("")
-	case protoreflect.BytesKind:
-		return protoreflect.ValueOfBytes(nil)
-	}
-	return protoreflect.Value{}
+	return fd.(*fakeFD).Default()
 }
 
 type fakeMap struct{ protoreflect.Map }
 
 func (m *fakeMsg) Mutable(fd protoreflect.FieldDescriptor) protoreflect.Value {
+	m.own(fd)
 	f := fd.(*fakeFD)
 	n := f.name
 	if f.isMap {
@@ -301,6 +378,7 @@ type fakeCodec struct {
 	failNext  bool
 	statuses  []*spb.Status     // google.rpc.Status messages handed to Marshal (error bodies)
 	bodySets  map[string]string // fields the decoded body sets (models body content)
+	bodyInts  map[string]int32  // int32 fields the decoded body sets
 }
 
 var errVfCodec = errors.New("verif: injected codec failure")
@@ -333,6 +411,9 @@ func (c *fakeCodec) Unmarshal(data []byte, v interface{}) error {
 		m.rawSet++
 		for k, val := range c.bodySets {
 			m.vals[k] = protoreflect.ValueOfString(val)
+		}
+		for k, val := range c.bodyInts {
+			m.vals[k] = protoreflect.ValueOfInt32(val)
 		}
 	}
 	return nil
